@@ -193,10 +193,10 @@ pub fn run(tier: Tier) -> i32 {
                 st.traces += 1;
                 let case = || json!({"ctor": "Energy::create", "rate": rv, "rate_unit": ru_.to_string(), "distance": dv, "distance_unit": du.to_string()});
                 let got = guarded(|| Energy::create(&EnergyRate::new(*rv), ru_, &Distance::new(*dv), du));
-                let rate_du = ru_.associated_distance_unit();
+                let rate_du = ru::rate_distance_unit(ru_);
                 let want = rv * dv * ru::distance_m(du) / ru::distance_m(&rate_du);
                 match got {
-                    Ok(Ok((en, eu))) if close(en.as_f64(), want, 1e-3) && eu == ru_.associated_energy_unit() => st.pass("energy_is_rate_times_distance"),
+                    Ok(Ok((en, eu))) if close(en.as_f64(), want, 1e-3) && eu == ru::rate_energy_unit(ru_) => st.pass("energy_is_rate_times_distance"),
                     Ok(Ok((en, eu))) => st.violation("Energy::create", "definition", 0, || format!("got {} {} want {}", en.as_f64(), eu, want), case),
                     Ok(Err(e)) => st.violation("Energy::create", "definition", 0, || format!("unexpected Err {} want {}", e, want), case),
                     Err(p) => st.violation("Energy::create", "no_panic", 0, || p.clone(), case),
